@@ -88,6 +88,21 @@ CHECKS = {
              "(remove_from_inventory) is trusted to touch only this connection; schedules are not modelled. 'Repeated "
              "delivery has no effect' is the known-id path.",
         technique=PROOF_TECH + "; path contracts over ghost state (committed blocks, relayed sequence)"),
+    'C11': dict(
+        category='proof', design_ref='6/C11',
+        text="MessageReceiver.receive is verified from source, path by path (44 path obligations), against a framing "
+             "specification parse(): for a receiver whose not-yet-delivered bytes are `pending` (reconstructed from its three "
+             "fields) and any chunk, what is handed to the message handler is exactly parse_delivered(pending + chunk), "
+             "what stays pending is parse_rest(pending + chunk), and it raises exactly when parse refuses (wrong magic / "
+             "over-limit length) - after delivering what precedes the refusal point; the recursive call is used through "
+             "the function's own contract. Lemma C11.extension (induction over the frames of a, base and step "
+             "machine-checked) shows parse(a + b) = parse(a)'s deliveries followed by parse(residue(a) + b), and that a "
+             "refusal in a is a refusal in a + b after the same deliveries. Together (induction over the chunks): the "
+             "delivered sequence is parse(c1 + c2 + ...) for EVERY way of cutting the stream, of every length.",
+        note="Assumed: struct.unpack('>I') and the 4-byte encoder are inverse (A-STRUCT); a message handler that raises ends "
+             "the connection (C20) and is modelled as having received its payload. Sequence terms are normalised by the "
+             "executor (slice-of-slice, slices of concatenations) under entailment checks against the path condition.",
+        technique=PROOF_TECH + "; function against a recursive specification function + extension lemma"),
     'C12': dict(
         category='proof', design_ref='6/C12',
         text="Proved from source: the candidate the miner assembles is built from the node's current head and pool; its "
